@@ -530,6 +530,38 @@ def self_poisoning(facts, fn_id):
     return True
 
 
+def poison_propagating(facts, fn_id, selfp, depth=0):
+    """a thin wrapper whose only sources of errors are self-poisoning callees: every I/O-carrying Result produced in it
+    comes from such a callee (or from another wrapper of the same kind) or is std plumbing, and it builds no error of its own"""
+    body = facts.bodies.get(fn_id)
+    if body is None or body.crate != "nomt" or depth > 3:
+        return False
+    n_sp = 0
+    for b, t in body.calls():
+        if body.is_cleanup(b):
+            continue
+        c = t.get("callee") or ""
+        if c.endswith("::from_residual") or c.endswith("Try>::branch") or c.endswith("::into") or c.endswith("From>::from"):
+            continue
+        if "anyhow" in c and ("format_err" in c or c.endswith("::msg") or c.endswith("::new") or "Error::construct" in c):
+            return False  # builds an error of its own
+        if not is_io_result(body.place_ty(t["dest"])):
+            continue
+        if c in selfp or poison_propagating(facts, c, selfp, depth + 1):
+            n_sp += 1
+            continue
+        if (c.startswith("nomt::") or c.startswith("<nomt::")) and not may_return_err(facts, c):
+            continue
+        return False
+    for b in range(body.n):
+        if body.is_cleanup(b):
+            continue
+        for st in body.stmts(b):
+            if st["k"] == "assign" and st["rv"]["k"] == "agg" and st["rv"].get("variant") == "Err" and st["rv"].get("name", "").endswith("Result"):
+                return False
+    return n_sp > 0
+
+
 def may_return_err(facts, fn_id):
     body = facts.bodies.get(fn_id)
     if body is None:
@@ -607,6 +639,9 @@ def r4_error_exits_poison(facts, rep):
                 continue
             if callee in selfp or callee in ENTRY:
                 rep.ok("R4", short, inst, detail="%s at %s is self-poisoning%s" % (callee, t.get("ln"), " (judged on its own row)" if callee in ENTRY else ""))
+                continue
+            if poison_propagating(facts, callee, selfp):
+                rep.ok("R4", short, inst, detail="%s at %s only forwards the errors of self-poisoning callees" % (callee, t.get("ln")))
                 continue
             # failure edge: error blocks reachable from the call's successor chain that consume this result
             # approximated as: error blocks reachable from the call target without passing another call that is an effect
